@@ -47,7 +47,7 @@ TIERS = {
                   graphs=24, gnodes=12, queries=40, workers=16),
     "thorough": dict(families=[dict(nodes=3, vals=2, max_edges=3, rej="all", nvals=[0, 1, 2]),
                                dict(nodes=4, vals=1, max_edges=3, rej="single", nvals=[0, 1])],
-                     graphs=300, gnodes=30, queries=60, workers=16),
+                     graphs=80, gnodes=20, queries=60, workers=16),
 }
 INVS = ["RefinesPathSearch", "RefinesExpansionOrder", "RefinesExamined", "RefinesFilter",
         "RefinesCycle", "RefinesOrder", "RefinesDirection", "RefinesFunctional"]
